@@ -309,6 +309,9 @@ def _cold(ctx, tier, rec, rng):
                     ctx.hit("replay_cold_start_strict_numeric_policy")
                 elif strict:
                     ctx.hit("replay_cold_start_print_options_set_before_import")
+                # the workers run with PYTHONHASHSEED=0; a deployment does not: every fresh interpreter gets another string-hash
+                # seed, so a result that depends on the iteration order of a set / on hash() of a string differs from the recording
+                env["PYTHONHASHSEED"] = str(1 + (ctx.seed * 977 + ctx.shard * 131 + j * 17) % 4000000000)
                 p = subprocess.run([sys.executable] + flags + ["-m", "pmv.coldstart", path, str(ctx.shard * 31 + j * 7 + ctx.seed), "8"] + strict,
                                    capture_output=True, text=True, timeout=120, env=env, cwd=core.VERIF)
                 out = json.loads(p.stdout.strip().splitlines()[-1]) if p.stdout.strip() else None
